@@ -186,6 +186,9 @@ def run(R):
     R.log("servers=%d requests=%d nontrivial=%d injected-values=%d oracle_failures=%d disagreements=%d" % (len(progs), n_req, n_nontrivial, n_values, len(fails), len(dis)))
     for f in fails[:3]:
         R.violation("lifecycle not honoured: " + f["why"], f)
+    if R.tier == "thorough" and not R.replay and lean_ok and not pxvlib.leanchecker(R, ["Pxv.Thm.C03"]):
+        lean_ok = False
+        lrep["errors"] = ["leanchecker rejects Pxv.Thm.C03"]
     broken = []
     if not lean_ok:
         broken.append("proof obligations of Pxv.Thm.C03 no longer check: %s" % (lrep.get("errors") or lrep.get("bad_axioms") or lrep.get("forbidden_tokens")))
